@@ -175,6 +175,10 @@ package influx
 //@   store Row.IndexOptions
 //@     set rewritten = true
 //@   ensures [slot_rewritten_on_every_successful_decode] result2 == nil ==> rewritten
+// ... and the index list of every option is given exactly the encoded number of entries before they are written, whatever
+// length and capacity the pooled slot was left with by its previous use (the pools truncate lists to [:0] or not at all).
+//@   store IndexOption.IndexList
+//@     requires [list_has_the_encoded_length] len(val) == indexListLen
 
 // Un-escaping of a quoted string field: in front of a quote, a run of k backslashes stands for k/2 literal backslashes
 // followed by the quote itself (\" is a quote, \\\" is a backslash and a quote ...): exactly k/2 of them are kept.
